@@ -11,6 +11,9 @@ from pvc.spec_eval import elem_type, const_val
 class BuiltinMixin(object):
 
   def call_builtin(self, name, args, kw, st, star=None, dstar=None, n=None):
+    if self.mode == 'event' and self.contract is not None and name in self.contract.opaque_builtins:
+      yield from self.call_opaque(None, args, kw, st, star, dstar, kind='call', label='builtins.' + name)
+      return
     m = getattr(self, 'bi_' + name, None)
     if m is None:
       if name in EXC_PARENTS or name in ('BaseException',):
